@@ -87,7 +87,38 @@ func same(m psgen.LexObj, o postscript.Object) bool {
 	return false
 }
 
+// scribble overwrites every byte of every string among the objects: what was
+// read belongs to the reader of the program now.
+func scribble(objs []postscript.Object) {
+	for _, o := range objs {
+		switch v := o.(type) {
+		case postscript.String:
+			for i := range v {
+				v[i] = 0xEE
+			}
+		case postscript.Procedure:
+			scribble(v)
+		case postscript.Array:
+			scribble(v)
+		}
+	}
+}
+
+// check reads the text, compares, overwrites the strings it was given, and
+// reads the same text again: the second reading must spell the same objects
+// (no string that was handed out may be handed out again, or be the source of
+// later ones).
 func check(c *psgen.LexCase) string {
+	if msg := checkOnce(c, true); msg != "" {
+		return msg
+	}
+	if msg := checkOnce(c, false); msg != "" {
+		return "read a second time, after the strings of the first reading were overwritten by their owner: " + msg
+	}
+	return ""
+}
+
+func checkOnce(c *psgen.LexCase, overwrite bool) string {
 	intp := postscript.NewInterpreter()
 	intp.MaxOps = 100000
 	if err := intp.Execute(bytes.NewReader(c.Text)); err != nil {
@@ -119,6 +150,9 @@ func check(c *psgen.LexCase) string {
 		if intp.DSC[i].Key != d.Key || intp.DSC[i].Value != d.Value {
 			return fmt.Sprintf("DSC comment %d is %q: %q, want %q: %q\ntext: %q", i, intp.DSC[i].Key, intp.DSC[i].Value, d.Key, d.Value, clip(c.Text))
 		}
+	}
+	if overwrite {
+		scribble(intp.Stack)
 	}
 	return ""
 }
@@ -152,7 +186,7 @@ func goFloatBug(rec *ev.Rec) bool {
 func TestP1Tokens(t *testing.T) {
 	rec := ev.New("C04", "tokens")
 	defer rec.Finish(t)
-	rec.Rule("sequences of 0-30 objects (integers incl. boundary values and any int64; reals; literal and executable names over all regular bytes incl. >= 0x80, names that resemble numbers (1e, 16#, 8#9, 1.2.3, +-1, Inf, 0x1p4 ...), the empty literal name; strings; [ ] << >>; nested procedures to depth 3), each object spelled with independent choices: integers with sign, leading zeros or radix form (base 2-36, digit case per digit); reals as digits.digits / .digits / digits. with optional e/E exponent and signs, and integers too large for the integer type; strings as ( ) with per-byte choice of raw, 1-3 digit octal, named escape, ignored backslash, balanced raw parentheses, backslash-newline continuations (LF, CR, CRLF), raw CR/LF/CRLF for newline, or as < > (digit case, interior white space of all kinds, odd digit count) or <~ ~> (z, every tail length, interior white space); separators per gap: space, tab, CR, LF, CRLF, FF, NUL, pairs, comments, or nothing where a neighbour is self-delimiting; %%Key, %%Key: value and %%+ continuation lines at column 0 between top-level tokens and before the text. Oracle: executing `{ text }` leaves one procedure whose elements equal the model by type and value (reals against a math/big decimal conversion; number/name classification by the harness's PLRM grammar), and Interpreter.DSC equals the model's comment list. Non-trivial: >= 3 tokens and (a gap without white space at a delimiter, a string using >= 2 escape kinds, a number in non-plain form, or a DSC line); distinct by text. Excluded: reals outside the normal float64 range, radix values > maxint, radix bases with more than two digits, immediately evaluated names //n.")
+	rec.Rule("sequences of 0-30 objects (integers incl. boundary values and any int64; reals; literal and executable names over all regular bytes incl. >= 0x80, names that resemble numbers (1e, 16#, 8#9, 1.2.3, +-1, Inf, 0x1p4 ...), the empty literal name; strings; [ ] << >>; nested procedures to depth 3), each object spelled with independent choices: integers with sign, leading zeros or radix form (base 2-36, digit case per digit); reals as digits.digits / .digits / digits. with optional e/E exponent and signs, and integers too large for the integer type; strings as ( ) with per-byte choice of raw, 1-3 digit octal, named escape, ignored backslash, balanced raw parentheses, backslash-newline continuations (LF, CR, CRLF), raw CR/LF/CRLF for newline, or as < > (digit case, interior white space of all kinds, odd digit count) or <~ ~> (z, every tail length, interior white space); separators per gap: space, tab, CR, LF, CRLF, FF, NUL, pairs, comments, or nothing where a neighbour is self-delimiting; %%Key, %%Key: value and %%+ continuation lines at column 0 between top-level tokens and before the text. Oracle: executing `{ text }` leaves one procedure whose elements equal the model by type and value (reals against a math/big decimal conversion; number/name classification by the harness's PLRM grammar), and Interpreter.DSC equals the model's comment list. After the comparison every byte of every string that was read is overwritten (it belongs to the caller) and the same text is read again on a fresh interpreter, with the same comparison. Non-trivial: >= 3 tokens and (a gap without white space at a delimiter, a string using >= 2 escape kinds, a number in non-plain form, or a DSC line); distinct by text. Excluded: reals outside the normal float64 range, radix values > maxint, radix bases with more than two digits, immediately evaluated names //n.")
 	opts := psgen.LexOpts{NoGoFloatNames: goFloatBug(rec)}
 	ev.SetupRapid(150000, 4000000)
 	rapid.Check(t, func(t *rapid.T) {
